@@ -3327,6 +3327,7 @@ func (db *DatabaseCollectionWithUser) restampVersionCAS(ctx context.Context, key
 	opts := &sgbucket.MutateInOptions{
 		MacroExpansion: []sgbucket.MacroExpansionSpec{
 			sgbucket.NewMacroExpansionSpec(xattrCasPath(base.SyncXattrName), sgbucket.MacroCas),
+			sgbucket.NewMacroExpansionSpec(xattrCrc32cPath(base.SyncXattrName), sgbucket.MacroCrc32c),
 			sgbucket.NewMacroExpansionSpec(xattrCurrentVersionCASPath(base.VvXattrName), sgbucket.MacroCas),
 			sgbucket.NewMacroExpansionSpec(XattrMouCasPath(), sgbucket.MacroCas),
 		},
